@@ -196,4 +196,181 @@ theorem C11_children_untouched_node (f : Forest) (hi : f.Inv) (k : Forest.MapKin
   · rw [hnext] at hst
     exact hst
 
+/-- Keys are distinct in both views of every node of a forest satisfying the invariant. -/
+theorem C11_unique_keys (f : Forest) (hi : f.Inv) (k : Forest.MapKind) (e : Nat) :
+    omWf (abs k f e) := unique_keys_of_inv f hi k e
+
+/-- The reference map stays a map: `omInsert` / `omRemove` keep keys distinct, a lookup after an
+    update sees exactly that update, and `omRemove` leaves no entry of the key. -/
+theorem C11_reference_is_a_map (m : OMap Payload) (key : Nat) (p : Payload) (hw : omWf m) :
+    omWf (omInsert m key p) ∧ omWf (omRemove m key) ∧
+    omGet (omInsert m key p) key = some p ∧ omGet (omRemove m key) key = none ∧
+    (∀ k', k' ≠ key → omGet (omInsert m key p) k' = omGet m k' ∧ omGet (omRemove m key) k' = omGet m k') ∧
+    omRemove m key = m.filter (fun q => q.1 != key) ∧
+    (omGet m key = none → omInsert m key p = m ++ [(key, p)]) :=
+  ⟨omWf_insert m key p hw, omWf_remove m key hw, omGet_insert_self m key p,
+    omGet_remove_self m key hw,
+    fun k' hk => ⟨omGet_insert_other m key k' p hk, omGet_remove_other m key k' hk⟩,
+    omRemove_eq_filter m key hw, omInsert_of_get_none m key p⟩
+
+/-- The reads.  `get_node(key)` finds a node of the view carrying the key; `get`, `contains_key`
+    agree with the reference lookup; what the driver's `map_read` prints (`len`, `is_empty`, the
+    `iter()` pairs = `keys()` zipped with `values()`, `nodes()`) are the reference map's `omLen`,
+    `omIsEmpty`, `omKeys`, `omValues` (no hypothesis needed: one definition of the content). -/
+theorem C11_reads (f : Forest) (k : Forest.MapKind) (e key : Nat) :
+    (f.mapGetNode k e key).map (fun c => payloadOf c.value) = omGet (abs k f e) key ∧
+    (f.mapGetNode k e key).isSome = omContainsKey (abs k f e) key ∧
+    (∀ n, f.mapGetNode k e key = some n → n.handle ∈ absNodes k f e ∧ Forest.entryKey n.value = key) ∧
+    (∀ t, f.get? e = some t →
+      (Forest.mapChildren k t).length = omLen (abs k f e) ∧
+      (Forest.mapChildren k t).isEmpty = omIsEmpty (abs k f e) ∧
+      (Forest.mapChildren k t).map (fun c => Forest.entryKey c.value) = omKeys (abs k f e) ∧
+      (Forest.mapChildren k t).map (fun c => payloadOf c.value) = omValues (abs k f e) ∧
+      (Forest.mapChildren k t).map (·.handle) = absNodes k f e) :=
+  ⟨get_eq f k e key, containsKey_eq f k e key, getNode_mem f k e key, reads_eq f k e⟩
+
+/-- Histories.  Any sequence of map-style updates (`insert`, `remove`, `clear`) and node-style
+    updates (a fresh attribute / namespace node appended with `append_*_node` = `any_append`) of
+    both views of one element, from any forest satisfying the invariant: no step panics or
+    fails, and after the history each view equals the reference map fed the steps addressed to
+    it (`specOps`). -/
+theorem C11_histories (f : Forest) (hi : f.Inv) (e : Nat) (he : f.isElement e = true)
+    (ops : List MapOp) (hwf : ∀ op ∈ ops, op.wf = true) :
+    (∀ r ∈ (runOps e f ops).2, r = .ok) ∧
+    (∀ k, abs k (runOps e f ops).1 e = specOps k (abs k f e) ops) ∧
+    (∀ k, omWf (abs k (runOps e f ops).1 e)) ∧
+    (runOps e f ops).1.isElement e = true := by
+  obtain ⟨nm, N, A, S, h⟩ := minv_of_inv f e hi he
+  obtain ⟨N', A', h', hok, hv⟩ := runOps_spec e nm S ops f N A h hwf
+  refine ⟨hok, hv, ?_, h'.isElement⟩
+  intro k
+  rw [h'.abs_eq k]
+  have := h'.uniq k
+  simpa [omWf, omKeys, List.map_map, Function.comp_def, entryPair_fst] using this
+
+/-- One step of a history, for chaining with other operations: the outcome, both views, and that
+    the element is still a live element. -/
+theorem C11_step (f : Forest) (hi : f.Inv) (e : Nat) (he : f.isElement e = true) (op : MapOp)
+    (hwf : op.wf = true) :
+    (op.run e f).2 = .ok ∧ (∀ k, abs k (op.run e f).1 e = op.specFor k (abs k f e)) ∧
+    (op.run e f).1.isElement e = true := by
+  obtain ⟨nm, N, A, S, h⟩ := minv_of_inv f e hi he
+  obtain ⟨N', A', h', hok, hv⟩ := op_step h op hwf
+  exact ⟨hok, hv, h'.isElement⟩
+
+/-! ### The entry API (nodemap/entry.rs, modelled in Model/FmapEntry.lean) and `get_mut` -/
+
+/-- `entry(key).or_insert(default)` / `or_insert_with` / `or_default`: an occupied entry is left
+    alone, a vacant one is inserted last; never panics (the `unwrap`s inside are safe). -/
+theorem C11_entry_or_insert (f : Forest) (hi : f.Inv) (k : Forest.MapKind) (e : Nat) (default : Value)
+    (he : f.isElement e = true) (hm : k.matches default = true) :
+    abs k (f.entryOrInsert k e default).1 e =
+      (if omContainsKey (abs k f e) (Forest.entryKey default) then abs k f e
+       else omInsert (abs k f e) (Forest.entryKey default) (payloadOf default)) ∧
+    (f.entryOrInsert k e default).2 = .ok ∧
+    (∀ k', k' ≠ k → abs k' (f.entryOrInsert k e default).1 e = abs k' f e) := by
+  obtain ⟨nm, N, A, S, h⟩ := minv_of_inv f e hi he
+  obtain ⟨hr, hok⟩ := entryOrInsert_refines h k default hm
+  exact ⟨hr.abs_same, hok, fun k' hk => hr.abs_other h hk⟩
+
+theorem C11_entry_or_default (f : Forest) (hi : f.Inv) (e name : Nat) (he : f.isElement e = true) :
+    abs .attributes (f.entryOrDefault e name).1 e =
+      (if omContainsKey (abs .attributes f e) name then abs .attributes f e
+       else omInsert (abs .attributes f e) name (.str [])) ∧
+    (f.entryOrDefault e name).2 = .ok :=
+  let r := C11_entry_or_insert f hi .attributes e (.attribute name []) he rfl
+  ⟨r.1, r.2.1⟩
+
+/-- `entry(key).and_modify(g)`: the stored value is rewritten in place, a vacant entry is left. -/
+theorem C11_entry_and_modify (f : Forest) (hi : f.Inv) (k : Forest.MapKind) (e key : Nat)
+    (g : Value → Value) (he : f.isElement e = true)
+    (hg : ∀ v, k.matches v = true → k.matches (g v) = true) :
+    abs k (f.entryAndModify k e key g).1 e =
+      omModify (abs k f e) key (fun p => payloadOf (g (mkEntry k key p))) ∧
+    (f.entryAndModify k e key g).2.1 = .ok ∧
+    (∀ k', k' ≠ k → abs k' (f.entryAndModify k e key g).1 e = abs k' f e) := by
+  obtain ⟨nm, N, A, S, h⟩ := minv_of_inv f e hi he
+  obtain ⟨hr, hok, _⟩ := entryAndModify_refines h k key g hg
+  exact ⟨hr.abs_same, hok, fun k' hk => hr.abs_other h hk⟩
+
+/-- `entry(key).and_modify(g).or_insert(default)`. -/
+theorem C11_entry_and_modify_or_insert (f : Forest) (hi : f.Inv) (k : Forest.MapKind) (e : Nat)
+    (default : Value) (g : Value → Value) (he : f.isElement e = true)
+    (hm : k.matches default = true) (hg : ∀ v, k.matches v = true → k.matches (g v) = true) :
+    (f.entryAndModifyOrInsert k e default g).2 = .ok ∧
+    abs k (f.entryAndModifyOrInsert k e default g).1 e =
+      (if omContainsKey (abs k f e) (Forest.entryKey default)
+       then omModify (abs k f e) (Forest.entryKey default)
+              (fun p => payloadOf (g (mkEntry k (Forest.entryKey default) p)))
+       else omInsert (abs k f e) (Forest.entryKey default) (payloadOf default)) ∧
+    (∀ k', k' ≠ k → abs k' (f.entryAndModifyOrInsert k e default g).1 e = abs k' f e) := by
+  obtain ⟨nm, N, A, S, h⟩ := minv_of_inv f e hi he
+  obtain ⟨_, hok, hs, ho⟩ := entryAndModifyOrInsert_spec h k default g hm hg
+  exact ⟨hok, hs, ho⟩
+
+/-- `match entry(key) { Occupied(o) => o.insert(v), Vacant(va) => va.insert(v) }` is `omInsert`;
+    `if let Occupied(o) = entry(key) { o.remove() }` is `omRemove`; neither `unwrap` panics. -/
+theorem C11_entry_insert_remove (f : Forest) (hi : f.Inv) (k : Forest.MapKind) (e : Nat)
+    (he : f.isElement e = true) :
+    (∀ entry, k.matches entry = true →
+      abs k (f.entryInsert k e entry).1 e = omInsert (abs k f e) (Forest.entryKey entry) (payloadOf entry) ∧
+      (f.entryInsert k e entry).2 = .ok) ∧
+    (∀ key, abs k (f.entryRemove k e key).1 e = omRemove (abs k f e) key ∧
+      (f.entryRemove k e key).2 = .ok) := by
+  obtain ⟨nm, N, A, S, h⟩ := minv_of_inv f e hi he
+  constructor
+  · intro entry hm
+    obtain ⟨hr, hok⟩ := entryInsert_refines h k entry hm
+    exact ⟨hr.abs_same, hok⟩
+  · intro key
+    obtain ⟨hr, hok⟩ := entryRemove_refines h k key
+    exact ⟨hr.abs_same, hok⟩
+
+/-- `get_mut(key)` and a write through the reference: the stored value changes in place; `None`
+    exactly when the key is absent. -/
+theorem C11_get_mut (f : Forest) (hi : f.Inv) (k : Forest.MapKind) (e key : Nat) (new : Value)
+    (he : f.isElement e = true) (hm : k.matches new = true) :
+    abs k (f.mapGetMutSet k e key new).1 e = omModify (abs k f e) key (fun _ => payloadOf new) ∧
+    (f.mapGetMutSet k e key new).2.1 = .ok ∧
+    (f.mapGetMutSet k e key new).2.2 = omContainsKey (abs k f e) key ∧
+    (∀ k', k' ≠ k → abs k' (f.mapGetMutSet k e key new).1 e = abs k' f e) := by
+  obtain ⟨nm, N, A, S, h⟩ := minv_of_inv f e hi he
+  obtain ⟨hr, hok, hb⟩ := mapGetMutSet_refines h k key new hm
+  exact ⟨hr.abs_same, hok, hb, fun k' hk => hr.abs_other h hk⟩
+
+/-! ### Serialisation order -/
+
+/-- What the serialisers iterate for an element (`gen_outputs`: `xot.namespaces(node)` then
+    `xot.attributes(node)`, i.e. `Tree.nsDecls` / `Tree.attrs` of the erased element) lists
+    exactly the two views, in `abs` order. -/
+theorem C11_order (f : Forest) (e : Nat) (t : HTree) (h : f.get? e = some t) :
+    (HTree.erase t).nsDecls = absNs f e ∧ (HTree.erase t).attrs = absAttrs f e := by
+  unfold absNs absAttrs Fmap.abs
+  rw [h]
+  exact ⟨nsDecls_erase t, attrs_erase t⟩
+
+/-! ### Non-vacuity -/
+
+/-- A concrete forest: a document with an element carrying one declaration, two attributes and
+    a text, plus a detached attribute node and a detached namespace node. -/
+def c11Example : Forest :=
+  { roots := [.node 0 .document [.node 1 (.element 2)
+      [.node 2 (.namespace 0 2) [], .node 3 (.attribute 3 ['v']) [], .node 4 (.attribute 5 ['w']) [],
+       .node 5 (.text ['x']) []]], .node 6 (.attribute 3 ['n']) [], .node 7 (.namespace 1 3) []],
+    next := 8 }
+
+example : c11Example.Inv ∧ c11Example.isElement 1 = true ∧
+    c11Example.isRoot 6 = true ∧ c11Example.value? 6 = some (.attribute 3 ['n']) :=
+  ⟨(Forest.inv_iff _).mp (by decide), by decide, by decide, by decide⟩
+
+example : abs .attributes c11Example 1 = [(3, .str ['v']), (5, .str ['w'])] ∧
+    abs .attributes (c11Example.mapInsert .attributes 1 (.attribute 3 ['z'])).1 1 =
+      [(3, .str ['z']), (5, .str ['w'])] ∧
+    abs .attributes (c11Example.appendEntryNode .attributes 1 6).1 1 =
+      [(3, .str ['n']), (5, .str ['w'])] ∧
+    abs .namespaces (c11Example.appendEntryNode .namespaces 1 7).1 1 = [(0, .ns 2), (1, .ns 3)] ∧
+    (runOps 1 c11Example [.insert .attributes (.attribute 9 []), .remove .attributes 3,
+      .insertNode .namespaces (.namespace 0 5), .clear .attributes]).2 = [.ok, .ok, .ok, .ok] := by
+  decide
+
 end XotModel.Props
